@@ -15,11 +15,8 @@
    "Always wakes / completes" is proved in its safety form: an enabled step of the blocked thread, or of a thread that
    still owes it the signal, exists (DESIGN.md section 3). *)
 From Coq Require Import List Arith Bool NArith.
-From Muscle Require Import Gen.Consts Conc.ThreadQ Conc.ThreadQWf Conc.ThreadQWake Conc.ThreadQProofs.
+From Muscle Require Import Conc.ThreadQ Conc.ThreadQWf Conc.ThreadQWake Conc.ThreadQProofs Conc.ThreadQConsts.
 Import ListNotations.
-
-(* sizeof(bytes) in Thread::WaitForNextMessageAux, regenerated from /repo on every run *)
-Definition ABS : nat := N.to_nat c_thread_signal_absorb_size.
 
 (* exactly once, in order: at every moment what was sent = what was received followed by what is still queued *)
 Theorem c11_fifo_exactly_once : forall react ok m e s c, reachable_if false ABS react ok m e s ->
